@@ -289,6 +289,12 @@ fn u1(ctx: &mut Ctx) {
         if ctx.stop("u1") {
             break;
         }
+        u1_case(ctx, idx);
+    }
+}
+
+pub fn u1_case(ctx: &mut Ctx, idx: u64) {
+    {
         let mut r = ctx.rng("u1", idx);
         let names: Vec<NameM> = (0..r.usize(3, 7)).map(|_| u1_name(&mut r)).collect();
         let mut members: Vec<(RecSem, bool)> = Vec::new();
@@ -384,6 +390,11 @@ fn u1(ctx: &mut Ctx) {
 }
 
 pub fn run(ctx: &mut Ctx) {
+    if let Some(tape) = ctx.tape_case() {
+        // replay of a case found by the coverage-guided `model` target: the tape drives every generator decision
+        super::model_case("C13", ctx, &tape);
+        return;
+    }
     if ctx.family_active("u0") && !ctx.slow_tool {
         ctx.set_enumerated(true);
         u0(ctx);
